@@ -22,8 +22,8 @@ are claimed in MANIFEST.json (C15 at level `other`, the rest at level `proof`).
   all of C17's formulation theorems, all textbook equalities of C14, naturality for CG and CBLDM, scaling for multifit,
   and the sharp approximation constants 4/3 − 1/(3k) for LPT and for Karmarkar–Karp (`LPT43`, `KK43`), 2/3·(OPT−1) and
   3/4·OPT − 4 for the covering algorithms (`Cover23`, `Cover34`: parametrised staircase weightings found by the provers).
-* Still only certified (verified oracle on every run, no theorem): LPT's exact max-min ratio (3k−1)/(4k−2) in one regime
-  (2k/(3k−1) proved), multifit's 1.22 (5/4 proved), C09's absolute ⌊1.7·OPT⌋ (+1 proved) and 11/9 (3/2 absolute, 5/4·OPT + 1, and 11/9
+* Still only certified (verified oracle on every run, no theorem): LPT's exact max-min ratio (3k−1)/(4k−2) for k ≥ 5 when
+  items below OPT/8 exist (proved: k ≤ 4; every k without such items; 2k/(3k−1) always), multifit's 1.22 (5/4 proved), C09's absolute ⌊1.7·OPT⌋ (+1 proved) and 11/9 (3/2 absolute, 5/4·OPT + 1, and 11/9
   outside one size range of the last bin's first item proved); anything about CBC; CPython set order;
   interpreter-level state (C15).  Items in progress are listed per property below as `partial`.
 * One more known finding: **KF5** (C11): with `use_heuristic_3=True` and `MinimizeLargestSum`, when heuristic 3 fires on
